@@ -97,6 +97,10 @@ def value_desc(draw, typ, arity):
         return ["scalar", draw(scalar_desc())]
     form = draw(st.sampled_from(["list", "tuple"]))
     if mode == "good":
+        if typ in ("int", "float") and draw(st.integers(0, 3)) == 0:
+            # a vector equal to the implicit default, given in the attribute's own class
+            z = ["pyint", 0] if typ == "int" else ["pyfloat", 0.0]
+            return [form, [list(z) for _ in range(arity)]]
         return [form, [draw(typed_scalar(typ)) for _ in range(arity)]]
     if mode == "wronglen":
         n = draw(st.sampled_from([0, 1, arity - 1, arity + 1]))
@@ -188,8 +192,14 @@ def history(draw):
                 i = draw(st.sampled_from([-1, n, n + 1, n + 7, -5]))
                 ops.append([op, name, i, draw(value_desc(typ, arity).filter(lambda vd: model_accepts(vd, typ, arity)))])
             elif op in ("inplace", "inplace_idx"):
+                pre = None
+                if typ in ("int", "float") and arity > 1 and draw(st.booleans()):
+                    # first write the entry (half of the time with a vector equal to the default), then update it in place
+                    z = ["pyint", 0] if typ == "int" else ["pyfloat", 0.0]
+                    pre = ["list", [list(z) for _ in range(arity)]] if draw(st.booleans()) else \
+                        ["list", [[z[0], draw(st.integers(-9, 9))] if typ == "int" else [z[0], draw(st.integers(-9, 9)) / 2] for _ in range(arity)]]
                 ops.append([op, name, draw(st.integers(0, max(n - 1, 0))), draw(st.integers(0, 3)), draw(st.integers(1, 5)),
-                            draw(value_desc(typ, arity).filter(lambda vd: model_accepts(vd, typ, arity)))])
+                            draw(value_desc(typ, arity).filter(lambda vd: model_accepts(vd, typ, arity))), pre])
             elif op == "copy_entry":
                 # a[j] = a[i] (a value obtained by reading), then the value read back from j is changed in place
                 ops.append(["copy_entry", name, draw(st.integers(0, max(n - 1, 0))), draw(st.integers(0, max(n - 1, 0))), draw(st.integers(0, 3)), draw(st.integers(1, 5)),
@@ -365,6 +375,13 @@ def fn(case, ctx):
                              f"sparse {'accepted' if res[0] else 'rejected'}, dense {'accepted' if res[1] else 'rejected'}, documented rule says {'accept' if acc else 'reject'}") and good
             if acc and res[0] and res[1]:
                 mdl.data[i] = model_value(vd, mdl.typ, mdl.arity)
+                # "plain" entries: every component was given in the attribute's own numeric class (no bool -> int widening),
+                # so both storages hold an array of that class and an in-place component write means the same in both
+                if not hasattr(mdl, "plain"): mdl.plain = set()
+                if mdl.typ in ("int", "float") and mdl.arity > 1 and vd[0] != "scalar" and all(type_class(c) == mdl.typ for c in vd[1]):
+                    mdl.plain.add(i)
+                else:
+                    mdl.plain.discard(i)
             elif res[0] or res[1]:
                 # a write that should have been rejected went through somewhere: re-synchronise that entry with a clean write
                 resync = PYTYPE[mdl.typ]() if mdl.arity == 1 else [PYTYPE[mdl.typ]()] * mdl.arity
@@ -394,12 +411,21 @@ def fn(case, ctx):
                     raise
                 ctx.fail("dense:oob", f"{where}: dense {'read' if kind == 'get_oob' else 'write'} at index {idx} (container size {n}) raised {type(e).__name__} instead of reporting OutOfBoundsError: {e}")
         elif kind in ("inplace", "inplace_idx"):
-            _, name, i, k, d, vd = op
+            _, name, i, k, d, vd = op[:6]
+            pre = op[6] if len(op) > 6 else None
             if name not in models or n == 0: continue
             i = i % n
             mdl = models[name]; sp, de = handles[name]
             if mdl.typ in ("str", "bool"):
                 continue
+            if pre is not None and mdl.arity > 1:
+                val = realise_value(pre)
+                ok1, _ = ctx.call("sparse:set", sp.__setitem__, i, val); ok2, _ = ctx.call("dense:set", de.__setitem__, i, val)
+                if not (ok1 and ok2): return
+                mdl.data[i] = model_value(pre, mdl.typ, mdl.arity)
+                if not hasattr(mdl, "plain"): mdl.plain = set()
+                mdl.plain.add(i)
+                if mdl.data[i] == list(mdl.default): ctx.label("written-value-equals-default")
             ctx.label("inplace-on-" + ("written" if i in mdl.data else "never-written"))
             for a, which in ((sp, "sparse"), (de, "dense")):
                 try:
@@ -410,6 +436,16 @@ def fn(case, ctx):
                         x[k % mdl.arity] = d
                 except Exception:
                     pass
+            # a WRITTEN vector entry is updatable in place (upstream code relies on `attr[i][k] = x` for entries it has set):
+            # both storages must show the component write. (Never-written entries: nothing is promised for entry i itself.)
+            if kind == "inplace_idx" and mdl.arity > 1 and i in mdl.data and i in getattr(mdl, "plain", set()):
+                exp = list(mdl.data[i]); exp[k % mdl.arity] = PYTYPE[mdl.typ](d)
+                ctx.label("inplace-write-on-plain-written-entry")
+                for a, which in ((sp, "sparse"), (de, "dense")):
+                    ok, got = ctx.call(which + ":get", a.__getitem__, i)
+                    if ok:
+                        ctx.check(lib_eq(got, exp, mdl.typ, mdl.arity), which + ":inplace-write-lost",
+                                  f"{where}: after `x = attr[{i}]; x[{k % mdl.arity}] = {d}` on a written entry the {which} storage reads {got!r}, expected {exp!r}")
             # every OTHER entry must read as before (checked by the read-out); entry i itself is re-synchronised
             val = realise_value(vd)
             sp[i] = val; de[i] = val
